@@ -305,4 +305,6 @@ func runC14(h *H) {
 		h.DoRisky("json.aflags", s, h.Pick([]string{"val", "ptr"}))
 		h.DoRisky("json.pflags", strconv.FormatUint(h.U64(), 10))
 	}
+	genStrRT(h) // cross-model round trip of the string codec (c14rt.go)
+	genMapOrder(h)
 }
